@@ -8,6 +8,7 @@ from .. import fields, paths
 from ..core import FUNC, call_attr, calls_in, const, dotted, is_const, kwarg, norm, slice_parts, text, walk_local
 
 EXPLANATION = [
+    'C10.mtu-agreement: after an MTU exchange the server adopts min(value it announced, client_rx_mtu) and the client min(value it sent, server_rx_mtu): the same number on both sides, which every budget rule below relies on.',
     'C10.classify: ATT_REQUESTS/ATT_RESPONSES are paired (response opcode = request + 1), commands carry bit 6 and are not requests; '
     'the dispatcher sends one Error Response for requests without a handler and nothing for other PDUs.',
     'C10.once: every request handler sends exactly one response on every path, exceptional paths included '
@@ -403,7 +404,46 @@ def indication_slot(ctx):
         R.check(ok, rule, f'{SRV}.on_att_handle_value_confirmation', 'settles the bearer\'s pending confirmation', 'a confirmation does not settle the pending indication of its bearer', p.loc(conf))
 
 
+
+def mtu_agreement(ctx):
+    """Both ends use min(what I announced, what the peer announced) as ATT_MTU."""
+    R, p = ctx.r, ctx.p
+    rule = 'C10.mtu-agreement'
+    srv = p.find('bumble.gatt_server.Server.on_att_exchange_mtu_request')
+    cli = p.find('bumble.gatt_client.Client.request_mtu')
+    if srv is None or cli is None:
+        R.bad(rule, 'bumble.gatt_server.Server.on_att_exchange_mtu_request / bumble.gatt_client.Client.request_mtu', 'anchor missing')
+        return
+
+    def min_args(fn, e):
+        """resolve a Name through single local definitions, then expect min(a, b)."""
+        defs = {n.targets[0].id: n.value for n in walk_local(fn) if isinstance(n, ast.Assign) and len(n.targets) == 1 and isinstance(n.targets[0], ast.Name)}
+        for _ in range(3):
+            if isinstance(e, ast.Name) and e.id in defs:
+                e = defs[e.id]
+        if isinstance(e, ast.Call) and dotted(e.func) == 'min' and len(e.args) == 2:
+            return {norm(a) for a in e.args}
+        return {norm(e)} if e is not None else set()
+    # server
+    rsp = next((c for c in calls_in(srv) if (dotted(c.func) or '').endswith('ATT_Exchange_MTU_Response')), None)
+    announced = norm(kwarg(rsp, 'server_rx_mtu', 0)) if rsp is not None else None
+    upd = [c for c in calls_in(srv) if call_attr(c) == 'on_att_mtu_update']
+    req = srv.args.args[2].arg
+    ok = announced is not None and len(upd) == 1 and min_args(srv, upd[0].args[0]) == {announced, f'{req}.client_rx_mtu'}
+    R.check(ok, rule, 'bumble.gatt_server.Server.on_att_exchange_mtu_request | final MTU', f'min({announced}, {req}.client_rx_mtu): the value announced in the response and the client\'s',
+            f'the server adopts {sorted(min_args(srv, upd[0].args[0])) if upd else "?"} as ATT_MTU, not min(announced {announced}, client_rx_mtu): its responses and notifications can exceed the MTU the client computed', p.loc(srv))
+    g = [norm(t) for c in upd for t, pol in paths.flat_guards(c) if pol]
+    R.check(g == [f'{req}.client_rx_mtu >= att.ATT_DEFAULT_MTU'], rule, 'bumble.gatt_server.Server.on_att_exchange_mtu_request | lower bound', 'values below the default MTU are ignored', 'the lower bound on client_rx_mtu changed', p.loc(srv))
+    # client
+    rq = next((c for c in calls_in(cli) if (dotted(c.func) or '').endswith('ATT_Exchange_MTU_Request')), None)
+    sent = norm(kwarg(rq, 'client_rx_mtu', 0)) if rq is not None else None
+    st = [n for n in walk_local(cli) if isinstance(n, ast.Assign) and dotted(n.targets[0]) == 'self.mtu']
+    ok = sent is not None and len(st) == 1 and min_args(cli, st[0].value) == {sent, 'response.server_rx_mtu'}
+    R.check(ok, rule, 'bumble.gatt_client.Client.request_mtu | final MTU', f'min({sent}, response.server_rx_mtu)', 'the client does not adopt min(requested, server_rx_mtu)', p.loc(cli))
+
+
 RULES = [
+    ('C10.mtu-agreement', mtu_agreement),
     ('C10.classify', classify),
     ('C10.once', once),
     ('C10.budget', budget),
@@ -433,4 +473,7 @@ VARIANTS = [
      "                raise TimeoutError(f'GATT timeout for {indication.name}') from error\n            self.pending_confirmations[bearer] = None\n", 'fire', 'C10.indication-slot'),
     ('request list loses execute write', 'bumble/att.py', "    Opcode.ATT_PREPARE_WRITE_REQUEST,\n    Opcode.ATT_EXECUTE_WRITE_REQUEST,\n]", "    Opcode.ATT_PREPARE_WRITE_REQUEST,\n]", 'fire', 'C10.classify'),
     ('benign: log text', 'bumble/gatt_server.py', "                logger.debug(f'normal exception returned by handler: {error}')\n", "                logger.debug(f'ATT error returned by handler: {error}')\n", 'silent', ''),
+    ('server adopts the client value unclamped', 'bumble/gatt_server.py', "            mtu = min(self.max_mtu, request.client_rx_mtu)\n\n            bearer.on_att_mtu_update(mtu)", "            bearer.on_att_mtu_update(request.client_rx_mtu)", 'fire', 'C10.mtu-agreement'),
+    ('benign: min() inlined with swapped arguments', 'bumble/gatt_server.py', "            mtu = min(self.max_mtu, request.client_rx_mtu)\n\n            bearer.on_att_mtu_update(mtu)", "            bearer.on_att_mtu_update(min(request.client_rx_mtu, self.max_mtu))", 'silent', ''),
+    ('client ignores the server value', 'bumble/gatt_client.py', "        self.mtu = min(mtu, response.server_rx_mtu)", "        self.mtu = mtu", 'fire', 'C10.mtu-agreement'),
 ]
